@@ -94,10 +94,21 @@ def build(repo):
     # __eq__ and __repr__
     eq = mixin.methods.get("__eq__")
     rp = mixin.methods.get("__repr__")
-    want_eq = "isinstance(other, self.__class__) and self._repr_options == other._repr_options"
+    # the returned condition is the conjunction of exactly: other is an instance of this instance's class; the two _repr_options are equal
+    # (conjunct order and the sides of == are immaterial)
     got = ast.unparse(eq.body[-1].value) if eq is not None and isinstance(eq.body[-1], ast.Return) else ""
-    ob("eq-compares-class-and-restricted-options", eq is not None and len([s_ for s_ in eq.body if not isinstance(s_, ast.Expr)]) == 1 and
-       ast.dump(ast.parse(got or "0", mode="eval")) == ast.dump(ast.parse(want_eq, mode="eval")), got)
+    atoms = set()
+    if eq is not None and isinstance(eq.body[-1], ast.Return):
+        e_ = eq.body[-1].value
+        for a_ in (e_.values if isinstance(e_, ast.BoolOp) and isinstance(e_.op, ast.And) else [e_]):
+            if isinstance(a_, ast.Compare) and len(a_.ops) == 1 and isinstance(a_.ops[0], ast.Eq):
+                atoms.add(("eq", frozenset((ast.unparse(a_.left), ast.unparse(a_.comparators[0])))))
+            elif isinstance(a_, ast.Call) and isinstance(a_.func, ast.Name) and a_.func.id == "isinstance" and len(a_.args) == 2:
+                atoms.add(("isinstance", ast.unparse(a_.args[0]), ast.unparse(a_.args[1]).replace("type(self)", "self.__class__")))
+            else:
+                atoms.add(("other", ast.unparse(a_)))
+    want_atoms = {("eq", frozenset(("self._repr_options", "other._repr_options"))), ("isinstance", "other", "self.__class__")}
+    ob("eq-compares-class-and-restricted-options", eq is not None and len([s_ for s_ in eq.body if not isinstance(s_, ast.Expr)]) == 1 and atoms == want_atoms, got)
     if rp is not None:
         names = {n_.attr for n_ in ast.walk(rp) if isinstance(n_, ast.Attribute) and isinstance(n_.value, ast.Name) and n_.value.id == "self"}
         ob("repr-shows-class-name-and-restricted-options", names <= {"__class__", "_repr_options"} and "_repr_options" in names, sorted(names))
